@@ -3,11 +3,9 @@ package main
 // Models for core.MetaInfo pieces that go through reflection in the real
 // code (bencode for the info hash, encoding/json for the sidecar format).
 //
-//   (*core.info).Hash        concrete fields: the real bencode + SHA-1;
-//                            symbolic fields: 20 uninterpreted functions of
-//                            (PieceLength, Length, Name bytes, PieceSums)
-//                            (per shape), i.e. equal infos ⇒ equal hashes,
-//                            different infos may or may not collide.
+//   (*core.info).Hash        see model_zz_grpa_metainfo.go (one model only, so
+//                            that hashes computed on both sides of a
+//                            serialisation round trip agree).
 //   json.Marshal / Unmarshal only for *core.metaInfoJSON: concrete fields give
 //                            the byte-exact real JSON text; symbolic fields
 //                            give an opaque fixed-width injective encoding
@@ -15,10 +13,8 @@ package main
 //                            Any other type ends the path as unsupported.
 
 import (
-	"crypto/sha1"
 	"encoding/json"
 	"fmt"
-	"strings"
 )
 
 type miJSONInfo struct {
@@ -68,16 +64,6 @@ func infoConcrete(st Struct) (*miJSONInfo, bool) {
 	return out, true
 }
 
-func bencodeInfo(in *miJSONInfo) []byte {
-	var sb strings.Builder
-	fmt.Fprintf(&sb, "d6:Lengthi%de4:Name%d:%s11:PieceLengthi%de9:PieceSumsl", in.Length, len(in.Name), in.Name, in.PieceLength)
-	for _, s := range in.PieceSums {
-		fmt.Fprintf(&sb, "i%de", s)
-	}
-	sb.WriteString("ee")
-	return []byte(sb.String())
-}
-
 func (m *Machine) beBytes(v Value, w int) []Value {
 	n := w / 8
 	out := make([]Value, n)
@@ -122,33 +108,6 @@ func (m *Machine) fromBE(b []Value, signed bool) Value {
 const miJSONType = "*github.com/uber/kraken/core.metaInfoJSON"
 
 func init() {
-	reg("(*github.com/uber/kraken/core.info).Hash", func(m *Machine, fr *frame, a []Value) Value {
-		st := (*m.cellPtr(a[0])).(Struct)
-		if in, ok := infoConcrete(st); ok {
-			sum := sha1.Sum(bencodeInfo(in))
-			out := make(Array, 20)
-			for i, b := range sum {
-				out[i] = uint64(b)
-			}
-			return Tuple{out, Iface{}}
-		}
-		pl, sums, name, length := infoFields(st)
-		nb := strBytes(name)
-		args := []*Term{m.scalarTerm(pl, 64), m.scalarTerm(length, 64)}
-		for _, b := range nb {
-			args = append(args, m.scalarTerm(b, 8))
-		}
-		for _, s := range sums.a {
-			args = append(args, m.scalarTerm(s, 32))
-		}
-		out := make(Array, 20)
-		for j := range out {
-			out[j] = m.tf.UF(fmt.Sprintf("infohash_%d_%d_%d", len(nb), len(sums.a), j), 8, args...)
-		}
-		m.res.Notes["core.info.Hash (bencode+sha1 via reflection) modelled as an uninterpreted function of the info fields when they are symbolic"] = true
-		return Tuple{out, Iface{}}
-	})
-
 	reg("encoding/json.Marshal", func(m *Machine, fr *frame, a []Value) Value {
 		v := a[0].(Iface)
 		if v.t == nil || v.t.String() != miJSONType {
